@@ -48,8 +48,10 @@ MksUnset == [set |-> FALSE, key |-> <<>>, mode |-> "enc", tw |-> ZeroSeq(8), r |
 (* (and matters: the 0-round cipher depends on it); keying resets it to zero.          *)
 KeyNone(kind) == [kd |-> "none", tw |-> ZeroSeq(BS(kind))]
 
+(* csz: width of the counter in bytes -- always the block size in the C library;  *)
+(* the Arduino CTR wrapper can narrow it (ArduinoTrace)                           *)
 CtrZeroed(kind) == [life |-> "zeroed", be |-> "gen", key |-> KeyNone(kind),
-                    pos |-> PosInit(BS(kind))]
+                    pos |-> PosInit(BS(kind)), csz |-> BS(kind)]
 ParZeroed(kind) == [life |-> "zeroed", be |-> "gen", key |-> KeyNone(kind)]
 
 KsInit  == [k \in SKinds |-> [o \in Objs |-> KsUnset]]
@@ -360,7 +362,7 @@ TCtrInit ==
               ELSE ctr' = [ctr EXCEPT ![kind][o] =
                               [life |-> oc.life,
                                be |-> IF oc.ret = 1 THEN ev.be ELSE "gen",
-                               key |-> KeyNone(kind), pos |-> PosInit(BS(kind))]]
+                               key |-> KeyNone(kind), pos |-> PosInit(BS(kind)), csz |-> BS(kind)]]
     /\ UNCHANGED <<env, ks, tks, mks, par>>
 
 (* cleanup: releases the block exactly once, wiped (C17); no-op otherwise *)
@@ -391,7 +393,7 @@ TCtrSetKey ==
                                 THEN [kd |-> "mantis", key |-> ev.key, mode |-> "enc",
                                       tw |-> ZeroSeq(8), r |-> ev.nr]
                                 ELSE PlainKeyT(kind, ev.key, ev.len, ctr[kind][o].key.tw),
-                              ![kind][o].pos = PosRekey(256, @)]
+                              ![kind][o].pos = PosRekeyW(256, @, ctr[kind][o].csz)]
               ELSE UNCHANGED ctr
            /\ NoHeap(ev)
     /\ UNCHANGED <<env, ks, tks, mks, par>>
@@ -405,7 +407,7 @@ TCtrSetTweakedKey ==
            /\ IF valid
               THEN ctr' = [ctr EXCEPT ![kind][o].key =
                                 TweakedKey(kind, PadKey(kind, ev.key, ev.len), ZeroSeq(BS(kind))),
-                              ![kind][o].pos = PosRekey(256, @)]
+                              ![kind][o].pos = PosRekeyW(256, @, ctr[kind][o].csz)]
               ELSE UNCHANGED ctr
            /\ NoHeap(ev)
     /\ UNCHANGED <<env, ks, tks, mks, par>>
@@ -430,7 +432,7 @@ TCtrSetTweak ==
                                                !.adds = XorAdds(XorAdds(@, Tk1Contrib(CW(kind), old.tw, Len(@))),
                                                                 Tk1Contrib(CW(kind), tw, Len(@)))]
                    IN ctr' = [ctr EXCEPT ![kind][o].key = new,
-                                         ![kind][o].pos = PosRekey(256, @)]
+                                         ![kind][o].pos = PosRekeyW(256, @, ctr[kind][o].csz)]
               ELSE UNCHANGED ctr
            /\ NoHeap(ev)
     /\ UNCHANGED <<env, ks, tks, mks, par>>
@@ -450,10 +452,10 @@ TCtrSetCounter ==
 (* The stream law (C05): output byte i = input byte i xor byte             *)
 (* (j+i) mod bs of E(c + (j+i) div bs).  No call boundary, no batch size    *)
 (* and no back end occurs in it.                                            *)
-CtrStream(kind, key, rr, pos, n) ==
+CtrStream(kind, key, rr, pos, n, w) ==
     LET bs  == BS(kind)
         nb  == PosBlocksTouched(bs, pos, n)
-        blk == [b \in 1..nb |-> KeyEnc(kind, key, rr, AddBE(256, pos[1], b - 1))]
+        blk == [b \in 1..nb |-> KeyEnc(kind, key, rr, AddBEW(256, pos[1], b - 1, w))]
         ksq == SubSeq(blk, 1, nb)      \* force evaluation once
     IN  [i \in 1..n |-> ksq[PosBlockOf(bs, pos, i - 1) + 1][PosByteOf(bs, pos, i - 1) + 1]]
 
@@ -465,10 +467,10 @@ TCtrEncrypt ==
            /\ IF valid
               THEN LET st  == ctr[kind][o]
                        n   == ev.n
-                       str == CtrStream(kind, st.key, RR(ev), st.pos, n)
+                       str == CtrStream(kind, st.key, RR(ev), st.pos, n, st.csz)
                        exp == SubSeq([i \in 1..n |-> ev.in[i] ^^ str[i]], 1, n)
                    IN  /\ Chk("ctr_encrypt output", exp, ev.out)
-                       /\ ctr' = [ctr EXCEPT ![kind][o].pos = PosAdvance(256, BS(kind), @, n)]
+                       /\ ctr' = [ctr EXCEPT ![kind][o].pos = PosAdvanceW(256, BS(kind), @, n, st.csz)]
               ELSE UNCHANGED ctr
            /\ NoHeap(ev)
     /\ UNCHANGED <<env, ks, tks, mks, par>>
